@@ -3,6 +3,8 @@ CONSTANTS
   MaxListeners = 3
   NB = 4
   MaxOps = 2
+  EmitEvery = 1
+  LieMode = FALSE
   SyncListeners = 3
 CONSTRAINT Bound
 VIEW View
